@@ -1,7 +1,7 @@
 #!/bin/bash
 # usage: confirm_seeded.sh <Cxx>   re-verifies a sub-agent's seeded change in its scratch worktree /tmp/seed/<Cxx>:
 #   demo fails with the patch, passes without it, existing suite passes with the patch. Writes /tmp/seed/<Cxx>.confirm
-id=$1; w=/tmp/seed/$id; out=/tmp/seed/$id.confirm
+id=$1; base=${SEED_BASE:-/tmp/seed}; w=$base/$id; out=$base/$id.confirm
 export CARGO_NET_OFFLINE=true
 cd $w || exit 2
 demo_cmd=""
@@ -13,13 +13,13 @@ fi
 {
 echo "id=$id demo_cmd=$demo_cmd"
 git diff --quiet -- . ':!_seeded' && echo "WARNING: no source change applied"
-timeout 1200 $demo_cmd > /tmp/seed/$id.demo_with.log 2>&1; echo "demo_with_patch_exit=$?"
+timeout 1200 $demo_cmd > $base/$id.demo_with.log 2>&1; echo "demo_with_patch_exit=$?"
 git apply -R _seeded/patch.diff || echo "REVERT FAILED"
-timeout 1200 $demo_cmd > /tmp/seed/$id.demo_without.log 2>&1; echo "demo_without_patch_exit=$?"
+timeout 1200 $demo_cmd > $base/$id.demo_without.log 2>&1; echo "demo_without_patch_exit=$?"
 git apply _seeded/patch.diff || echo "REAPPLY FAILED"
-[ -n "$demo_file" ] && mv $demo_file /tmp/seed/$id.demo_file.rs
-timeout 2400 cargo test --workspace --offline --no-fail-fast > /tmp/seed/$id.suite.log 2>&1; echo "suite_exit=$?"
-[ -n "$demo_file" ] && mv /tmp/seed/$id.demo_file.rs $demo_file
-grep -E "^test result|FAILED|failed" /tmp/seed/$id.suite.log | grep -v "^test result: ok" | head -5
-echo "suite_failed_tests=$(grep -E '^test .* FAILED' /tmp/seed/$id.suite.log | tr '\n' ';')"
+[ -n "$demo_file" ] && mv $demo_file $base/$id.demo_file.rs
+timeout 2400 cargo test --workspace --offline --no-fail-fast > $base/$id.suite.log 2>&1; echo "suite_exit=$?"
+[ -n "$demo_file" ] && mv $base/$id.demo_file.rs $demo_file
+grep -E "^test result|FAILED|failed" $base/$id.suite.log | grep -v "^test result: ok" | head -5
+echo "suite_failed_tests=$(grep -E '^test .* FAILED' $base/$id.suite.log | tr '\n' ';')"
 } > $out 2>&1
